@@ -416,6 +416,42 @@ theorem C14_done_forgets (s : Sess σ) (e : Event) (iid : Str)
   simp [hn, hi]
 #assert_axioms C14_done_forgets
 
+
+/-- the child's side of "done.invoke after all other events of that child": when the session ends
+in a top-level final state `f` (the legal configuration is then `{<scxml>, f}`; the `<scxml>` element
+has no `onexit` and is no final state), `done.invoke` is the LAST thing `exitInterpreter` does —
+after the final state's own `onexit` content, with nothing after it -/
+theorem C14_done_invoke_last (env : Env σ) (d : Doc) (hasParent : Bool) (s : Sess σ) (f : Nat)
+    (hcfg : sortByDesc (docIdOf d) s.cfg = [f, d.root])
+    (hrx : (getState d d.root).onexit = []) (hrf : isFinalStateId d d.root = false) :
+    let s0 := s.children.foldl (fun s c => s.emit [.cancelInvoke c.invokeId]) (s.emit [.finalCfg s.cfg])
+    let s1 := (getState d f).onexit.foldl (runContent env) s0
+    (exitInterpreter env d hasParent s).trace =
+      s1.trace ++ (if isFinalStateId d f && (getState d f).parent == d.root && hasParent then [.doneInvoke] else []) := by
+  simp only
+  rw [(C07_exit_interpreter env d hasParent s).2.2, hcfg]
+  simp only [List.foldl_cons, List.foldl_nil]
+  have hroot : ∀ s0 : Sess σ, (exitFinalOne env d hasParent s0 d.root).trace = s0.trace := by
+    intro s0
+    unfold exitFinalOne
+    simp [hrx, hrf]
+  rw [hroot]
+  unfold exitFinalOne
+  simp only
+  split <;> simp [Sess.emit]
+#assert_axioms C14_done_invoke_last
+
+/-- events raised while invoking (an `<invoke>` whose argument evaluation fails raises
+`error.execution`) are handled before the session waits for the next external event: with a
+non-empty internal queue after the invocation phase the loop starts the next macrostep at once -/
+theorem C14_invoke_errors_handled_first (env : Env σ) (d : Doc) (c : Str) (m f : Nat) (s s1 : Sess σ)
+    (feed : List (List Event)) (hr : s.running = true) (hm : macroLoop env d m s = some s1)
+    (hr1 : s1.running = true) (hq : (runInvokes env d s1).iq ≠ []) :
+    mainLoop env d c m (f + 1) s feed = mainLoop env d c m f (runInvokes env d s1) feed := by
+  conv => lhs; unfold mainLoop
+  simp [hr, hm, hr1, hq]
+#assert_axioms C14_invoke_errors_handled_first
+
 /-- C14 — what is proved for the code as it is (the conjunction of the clauses above) -/
 theorem C14_partial (env : Env σ) (d : Doc) (s : Sess σ) (ts : List Nat) :
     ((∀ x, x ∈ s.toInvoke → x ∈ s.cfg) →
@@ -433,6 +469,8 @@ private def exDoc14 : Doc :=
       { id := 2, docId := 2, parent := 1, invokes := [{ docId := 7, autoforward := true, finalize := 0, id := [99] }] },
       { id := 3, docId := 3, parent := 1 }], transitions := [] }
 example : invokeOrder exDoc14 2 = [{ docId := 7, autoforward := true, finalize := 0, id := [99] }] := by decide
+example : sortByDesc (docIdOf exDoc14) [1, 3] = [3, 1] ∧ (getState exDoc14 1).onexit = [] ∧
+    isFinalStateId exDoc14 1 = false := by decide
 example : childAutoforward exDoc14 { invokeId := [99], state := 2, invDoc := 7 } = true := by decide
 
 end Rfsm.Interp
